@@ -25,6 +25,7 @@ func replayHuge(tr *Trace) error {
 	stem := strings.Repeat(string(rune('a'+fillB%20)), l)
 	alt := stem[:l-5] + "~" + stem[l-4:]
 	ka, kab, kb, kalt := stem+"a", stem+"ab", stem+"b", alt+"a"
+	kq1, kq2 := stem+"qrs-tail-1", stem+"qrs-tail-2" // an inner node with a non-empty path below the stem
 	t := art.NewAlphaSortedTree[string, int]()
 	short := func(k string) string {
 		return fmt.Sprintf("%q…(%d bytes)…%q", k[:4], len(k), k[max(len(k)-8, 4):])
@@ -65,10 +66,34 @@ func replayHuge(tr *Trace) error {
 			return ""
 		}
 	}
-	step("insert", func() string { t.Insert(ka, 1); t.Insert(kb, 3); t.Insert(kab, 2); t.Insert(kalt, 4); return "" })
+	step("insert", func() string {
+		t.Insert(ka, 1)
+		t.Insert(kb, 3)
+		t.Insert(kab, 2)
+		t.Insert(kalt, 4)
+		t.Insert(kq1, 7)
+		t.Insert(kq2, 8)
+		return ""
+	})
 	step("size", func() string {
-		if t.Size() != 4 {
-			return fmt.Sprintf("Size() = %d, expected 4", t.Size())
+		if t.Size() != 6 {
+			return fmt.Sprintf("Size() = %d, expected 6", t.Size())
+		}
+		return ""
+	})
+	step("lookup", search(kq1, 7, true))
+	step("lookup", search(kq2, 8, true))
+	step("range over the keys below the deep inner node", func() string { return expect(collect(t.Range(kq1, kq2)), []string{kq1, kq2}, []int{7, 8}) })
+	step("range with absent bounds around them", func() string {
+		return expect(collect(t.Range(stem+"qrs-tail-0", stem+"qrs-tail-9")), []string{kq1, kq2}, []int{7, 8})
+	})
+	step("range from the group to the deep node", func() string {
+		return expect(collect(t.Range(kab, kq1)), []string{kab, kb, kq1}, []int{2, 3, 7})
+	})
+	step("prefix below the deep node", func() string { return expect(collect(t.Prefix(stem+"qrs-")), []string{kq1, kq2}, []int{7, 8}) })
+	step("delete below the deep node", func() string {
+		if !t.Delete(kq1) || !t.Delete(kq2) {
+			return "Delete of a stored key reports absent"
 		}
 		return ""
 	})
